@@ -30,13 +30,18 @@ class Driver:
     def batch(self, reqs):
         """reqs: list of (op, args).  Pipelined in chunks so large batches stay fast."""
         out = []
-        CH = 256
-        for s in range(0, len(reqs), CH):
-            chunk = reqs[s:s + CH]
-            data = "".join(json.dumps({"op": op, "args": args}) + "\n" for op, args in chunk)
-            self.p.stdin.write(data)
+        lines = [json.dumps({"op": op, "args": args}) + "\n" for op, args in reqs]
+        i = 0
+        while i < len(lines):
+            # a chunk never exceeds ~32 KB unless it is a single request: the pipe (64 KB) then never fills while
+            # the driver is blocked writing replies, so harness and driver cannot wait on each other
+            j, size = i, 0
+            while j < len(lines) and (j == i or (size + len(lines[j]) <= 32768 and j - i < 256)):
+                size += len(lines[j])
+                j += 1
+            self.p.stdin.write("".join(lines[i:j]))
             self.p.stdin.flush()
-            for _ in chunk:
+            for _ in range(i, j):
                 line = self.p.stdout.readline()
                 if not line:
                     raise DriverError("driver died")
@@ -49,6 +54,7 @@ class Driver:
                     if e.startswith("UnknownOp") or e.startswith("property not found") or "expected" in e:
                         raise DriverError(f"{e}")
                     out.append("err:" + e.split(":")[0])
+            i = j
         return out
 
     def close(self):
